@@ -174,6 +174,28 @@ func runC04(c *eng.Ctx) {
 			finish(idx, r, "shrunk-group")
 		}
 	}
+	// (b1) a service swapped for another constructor of another lifetime between two Builds of
+	// one collection (see SwapSpecs): the second provider is wired from the final registrations
+	for _, s := range SwapSpecs(false) {
+		idx, mine := cr.next()
+		if !mine {
+			continue
+		}
+		m := NewModel(s)
+		c.R.Begin(idx)
+		c.R.Count("swap_specs", 1)
+		r := NewRun(s, m, nil, nil)
+		r.Build()
+		if r.Built {
+			sc := r.Do(Op{Kind: OpCreate, Scope: 0, CtxKind: 1})
+			ProbeAll(r, sc.NewScope)
+			ProbeRegistered(r, 0)
+			r.Finish()
+		} else {
+			report(c, "C04", idx, r, []Finding{{"buildable-forms-rejected", "service-swapped-between-two-builds", fmt.Sprintf("Build failed after a service was swapped for one of another lifetime: %v", r.BuildErr)}})
+		}
+		finish(idx, r, "swap")
+	}
 	// (b') an Add call that is refused half-way (a later output collides with an existing
 	// registration) after an earlier output of it was a group member / a plain identity / an
 	// alias: the call returns an error, and nothing of it shows up in the wiring
@@ -220,7 +242,7 @@ func runC04(c *eng.Ctx) {
 		}
 		rng := cr.rng(idx)
 		full := k%5 == 4
-		s, m := GenSpec(rng, GenOpts{Want: ClsOK, Specials: true, Values: true, MultiAlias: full || k%3 == 1, OutGroup: full, MultiOpt: full, Removes: k%3 == 1})
+		s, m := GenSpec(rng, GenOpts{Want: ClsOK, Specials: true, Values: true, MultiAlias: full || k%3 == 1, OutGroup: full, MultiOpt: full, Removes: k%3 == 1, Rebuild: k%4 == 1, Sibling: true})
 		if s == nil {
 			continue
 		}
@@ -651,6 +673,9 @@ func runC07(c *eng.Ctx) {
 			&Spec{RebuildAfter: 1, Regs: []Reg{mkReg("InU_0_2_Iface", life), mkReg("Leaf_K1_a", godi.Scoped, withAs("IK1"))}},
 		)
 	}
+	// a service swapped for one of another lifetime between two Builds (same number of registrations)
+	directed = append(directed, SwapSpecs(true)...)
+	directed = append(directed, SwapSpecs(false)...)
 	for _, s := range directed {
 		idx, mine2 := cr.next()
 		if !mine2 {
@@ -673,7 +698,7 @@ func runC07(c *eng.Ctx) {
 		if k%2 == 1 {
 			want = ClsLifetime
 		}
-		s, m := GenSpec(rng, GenOpts{Want: want, Specials: k%3 == 0 || k%4 >= 2, Values: true, Removes: k%4 >= 2, MultiAlias: k%4 >= 2, Rebuild: k%3 == 1})
+		s, m := GenSpec(rng, GenOpts{Want: want, Specials: k%3 == 0 || k%4 >= 2, Values: true, Removes: k%4 >= 2, MultiAlias: k%4 >= 2, Rebuild: k%3 == 1, Sibling: true})
 		if s == nil {
 			continue
 		}
@@ -935,6 +960,10 @@ func runC08(c *eng.Ctx) {
 		// D11: singleton consuming a group whose members have dependencies
 		{Regs: []Reg{mkReg("Leaf_K0_a", godi.Singleton), mkReg("PosA_1_1", godi.Singleton, withGroup("g")), mkReg("PosB_1_1", godi.Singleton, withGroup("g")), mkReg("InU_2_2_Group", godi.Singleton)}},
 	}
+	// a service swapped for one of another lifetime between two Builds: the second Build accepts
+	// exactly the valid final sets
+	directed = append(directed, SwapSpecs(false)...)
+	directed = append(directed, SwapSpecs(true)...)
 	// acceptance: a constructor that names the same dependency identity more than once
 	for _, l := range allLifetimes {
 		depLife := godi.Transient
@@ -966,7 +995,7 @@ func runC08(c *eng.Ctx) {
 		}
 		rng := cr.rng(idx)
 		full := k%6 == 5
-		s, m := GenSpec(rng, GenOpts{Want: ClsOK, Specials: true, Values: k%4 == 0, MultiAlias: full || k%3 == 2, OutGroup: full, MultiOpt: full, Removes: k%3 == 2, Rebuild: k%5 == 0})
+		s, m := GenSpec(rng, GenOpts{Want: ClsOK, Specials: true, Values: k%4 == 0, MultiAlias: full || k%3 == 2, OutGroup: full, MultiOpt: full, Removes: k%3 == 2, Rebuild: k%5 == 0 || k%6 == 2, Sibling: true})
 		if s == nil {
 			continue
 		}
